@@ -859,6 +859,7 @@ fn corpus() -> Vec<History> {
         vec![I(0, 4), G],
         vec![G],
         vec![I(0, 8), G],
+        vec![I(0, 1), L(1, 1, 2), G],
         vec![I(3, 1), R(1), L(1, 4, 6), E(1)],
         vec![I(0, 7), R(1), L(1, 2, 3), L(1, 1, 6), R(1), E(1)],
         vec![I(0, 1), L(1, 1, 2), L(1, 2, 9), R(1), E(1)],
@@ -893,19 +894,17 @@ fn reduced_alphabet() -> Vec<Op> {
 
 /// a `G` before any result-storing call could have happened kills the child (documented misuse): such
 /// sequences are skipped unless they are of length ≤ 2
-fn skip_misuse(h: &History) -> bool {
+fn skip_misuse(h: &History, info: &[ParseInfo]) -> bool {
     if h.len() <= 2 {
         return false;
     }
-    let mut maybe_result = false;
+    // a result is stored by: a failing I, any R, a failing L (unknown id or unparsable source), any E
+    let mut book = Book::new(info);
     for op in h {
-        match op {
-            Op::G if !maybe_result => return true,
-            Op::G => {}
-            Op::I(_, s) if matches!(s, 0 | 1 | 5 | 7) => {}
-            Op::F(_) => {}
-            _ => maybe_result = true,
+        if *op == Op::G && !book.has_result {
+            return true;
         }
+        book.apply(op);
     }
     false
 }
@@ -1008,7 +1007,7 @@ fn exhaustive(ctx: &mut Ctx, fd: &mut Feeder, alpha: &[Op], n: usize, kind: &'st
     let (mut run, mut skipped) = (0, 0);
     for idx in 0..total {
         let h = decode(alpha, n, idx);
-        if skip_misuse(&h) {
+        if skip_misuse(&h, &ctx.info) {
             skipped += 1;
             continue;
         }
@@ -1107,7 +1106,7 @@ fn main() {
     let mut drawn = 0;
     while drawn < sample4 {
         let h: History = (0..4).map(|_| *rng.pick(&full)).collect();
-        if skip_misuse(&h) {
+        if skip_misuse(&h, &ctx.info) {
             continue;
         }
         drawn += 1;
